@@ -91,7 +91,7 @@ Record mstate := {
   m_clock : nat;
   m_nins : nat;
   m_swept : bool;      (* the last state-changing label was a Sweep (quiescent point) *)
-  m_noresize : bool;   (* no Resize since the last Clear / start (C03's histories) *)
+  m_noresize : bool;   (* no Resize since the start: the geometry is still the constructor's (Clear keeps the geometry of the last Resize, so it does not reset this) *)
   m_last : option (Z * Z * bool); (* the Set just executed: key, value, was the cache quiescent before it *)
   m_pswept : option oblock;       (* the last observation block taken at a quiescent (swept) point *)
   m_ins : nat;                    (* insertions since that block *)
@@ -196,7 +196,7 @@ Fixpoint monitor (mon : Z) (opt : copt) (nparts : Z) (m : mstate) (ops : list ho
                              m_pswept := m_pswept m; m_ins := m_ins m; m_dirty := m_dirty m |} t
       | HClear =>
           monitor mon opt nparts {| m_ideal := []; m_touched := m_touched m; m_prev := m_prev m; m_born := [];
-                             m_clock := S (m_clock m); m_nins := 0; m_swept := true; m_noresize := true; m_last := None;
+                             m_clock := S (m_clock m); m_nins := 0; m_swept := true; m_noresize := m_noresize m; m_last := None;
                              m_pswept := m_pswept m; m_ins := m_ins m; m_dirty := true |} t
       | HResize n root order =>
           (match mon, m_prev m, t with
